@@ -67,7 +67,7 @@ BOOM_KINDS = {'RuntimeError': RuntimeError, 'StopIteration': StopIteration, 'Key
 
 
 class BModel(Core.Model):
-    def __init__(self, a, b=0, life=2, boom=None, delay=0.0, jitter=0):
+    def __init__(self, a, b=0, life=2, boom=None, delay=0.0, jitter=0, warm=0, nocoll=None):
         super().__init__(seed=1)
         # boom names the failing execution by its parameters and the exception kind ("a,b:Kind"); it fails in its
         # first timestep
@@ -80,12 +80,15 @@ class BModel(Core.Model):
                 raise BOOM_KINDS[kind](f'boom in __init__ a={a} b={b}')
         else:
             boom = None
-        self.systems.add_system(Rec('c0', self, a, b, life, boom))
+        if nocoll != f'{a},{b}':         # nocoll names an execution whose model lacks the collector 'c0'
+            self.systems.add_system(Rec('c0', self, a, b, life, boom))
         self.systems.add_system(Rec('c1', self, a, b, life, boom))     # registered second: runs after c0
         if delay:      # conformance leg only: run durations perturbed per execution so completion order gets permuted
             time.sleep(delay * ((a * 7 + b * 3 + jitter) % 4))
         if life <= 0:
             self.complete()
+        if warm:          # a model that warms itself up: its clock is not 0 when the constructor returns
+            self.execute(warm)
 
 
 GLOBAL_SHIFT = [0]
@@ -173,6 +176,11 @@ def run_batch(case, cache=None):
     if limit is not None:
         kwargs['max_timesteps'] = limit
     eff_limit = limit if limit is not None else 10 ** 9
+    if case.get('warm'):
+        params['warm'] = case['warm']
+        eff_limit = max(eff_limit, case['warm'])      # warm-up steps happened before the limit was looked at
+    if case.get('nocoll') is not None:
+        params['nocoll'] = f'{tasks[case["nocoll"]][0]},{tasks[case["nocoll"]][1]}'
     if boom is not None:
         # the failing execution is identified by its parameters (fault batches use repetitions = 1)
         params['boom'] = (f'{tasks[boom][0]},{tasks[boom][1]}:{case.get("boom_kind", "RuntimeError")}'
@@ -185,7 +193,7 @@ def run_batch(case, cache=None):
         try:
             got = Batching.batch_run(BModel, params, **kwargs)
             raised = None
-        except (RuntimeError, StopIteration, KeyError, BoomError, Core.ModelCompleteError) as e:
+        except (RuntimeError, StopIteration, KeyError, BoomError, Core.ModelCompleteError, AttributeError) as e:
             got, raised = None, e
     finally:
         if procs != 1:
@@ -203,6 +211,12 @@ def run_batch(case, cache=None):
                     not isinstance(raised, Core.ModelCompleteError):
                 raise Violation(f'the caller got a different error: {raised!r}')
             return ('raised', str(raised))
+    if case.get('nocoll') is not None:
+        if raised is None:
+            raise Violation(f'an execution whose model has no collector named c0 did not make batch_run fail: its result '
+                            f'was dropped or invented (batch {case})', expected='an error in the caller',
+                            observed=_short(got))
+        return ('raised', type(raised).__name__)
     if raised is not None:
         raise Violation(f'batch_run raised {raised!r} although no execution fails')
     exp = [expected_result(tasks[i], coll, life, eff_limit) for i in order]
@@ -243,6 +257,51 @@ def long_cases():
         for procs, oc in ((1, None), (2, [[[0], [1]], [1, 0]])):
             yield {'leg': 'long', 'grid': '2x1', 'reps': 1, 'life': life, 'limit': limit, 'collectors': 'c0',
                    'procs': procs, 'outcome': oc}
+
+
+def extra_cases():
+    # models that warm themselves up in __init__ (clock 3 when the constructor returns)
+    for life, limit in ((50, 10), (50, 2), (5, 10), (50, None)):
+        if limit is None:
+            continue
+        for procs, oc in ((1, None), (2, [[[0], [1]], [1, 0]])):
+            yield {'leg': 'warm', 'grid': '2x1', 'reps': 1, 'life': life, 'limit': limit, 'collectors': 'c0', 'warm': 3,
+                   'procs': procs, 'outcome': oc}
+    # an execution whose model does not have the requested collector, at every batch position
+    for gname, n in (('2x1', 2), ('3x1', 3), ('2x2', 4)):
+        for pos in range(n):
+            for coll in ('c0', 'list'):
+                yield {'leg': 'missing_collector', 'grid': gname, 'reps': 1, 'life': 2, 'limit': None, 'collectors': coll,
+                       'procs': 1, 'nocoll': pos}
+                for oc in sched.outcomes(n, 2):
+                    yield {'leg': 'missing_collector', 'grid': gname, 'reps': 1, 'life': 2, 'limit': None,
+                           'collectors': coll, 'procs': 2, 'nocoll': pos,
+                           'outcome': [list(map(list, oc[0])), list(oc[1])]}
+
+
+def reused_list_case(case):
+    """One ParameterList object used for several batches with its declaration edited in between."""
+    reset_library()
+    pl = Batching.ParameterList({'a': [1, 2], 'b': [5, 6]})
+    plan = [('run', [(1, 5), (1, 6), (2, 5), (2, 6)]), ('remove', 'b'), ('run', [(1, 0), (2, 0)]),
+            ('add', ('life', 3)), ('run', [(1, 0), (2, 0)]), ('remove', 'a'), ('add', ('a', [3])), ('run', [(3, 0)])]
+    life = 2
+    n = 0
+    for what, arg in plan:
+        if what == 'remove':
+            pl.remove_parameter(arg)
+        elif what == 'add':
+            pl.add_parameter(*arg)
+            if arg[0] == 'life':
+                life = arg[1]
+        else:
+            got = Batching.batch_run(BModel, pl, collectors='c0', processes=case['procs'])
+            exp = [ref_records('c0', a, b, life, 10 ** 9) for a, b in arg]
+            n += 1
+            if sorted(map(repr, got)) != sorted(map(repr, exp)):
+                raise Violation(f'batch {n} over a ParameterList that was edited since the previous batch does not run its '
+                                f'current combinations (processes={case["procs"]})', expected=exp, observed=_short(got))
+    return n
 
 
 def batches(max_n):
@@ -363,7 +422,7 @@ def run(ctx):
     cases = list(serial_cases())
     sc = list(sched_cases(ctx.tier))
     fc = list(fault_cases(ctx.tier))
-    lc = list(long_cases())
+    lc = list(long_cases()) + list(extra_cases())
     allc = cases + sc + fc + lc
     # group cases that share worker executions (same batch) into the same chunk so the cache is effective
     allc.sort(key=lambda c: (c['grid'], c['reps'], c['life'], str(c['limit']), str(c['collectors']), c.get('boom', -1)))
@@ -374,6 +433,13 @@ def run(ctx):
     ctx.leg('fault', executions=len(fc))
     for c in (cases[7], sc[len(sc) // 2], fc[-1]):
         ctx.sample(c)
+    if not ctx.violations:
+        for case in ({'leg': 'reused_list', 'procs': 1}, {'leg': 'reused_list', 'procs': 2}):
+            ctx.traces += 1
+            try:
+                ctx.transitions += hbfs._guard(reused_list_case, case)
+            except Violation as v:
+                ctx.report(case, v)
     if not ctx.violations:
         for case in pool_reuse_cases():
             ctx.traces += 1
@@ -396,6 +462,9 @@ def replay(case):
         raise Violation('collectors=34 was accepted', expected='AttributeError')
     if case['leg'] == 'pool_reuse':
         hbfs._guard(pool_reuse_case, case)
+        return
+    if case['leg'] == 'reused_list':
+        hbfs._guard(reused_list_case, case)
         return
     if case['leg'] == 'conformance':
         raise Violation('conformance cases are not replayable deterministically (real OS scheduling)')
